@@ -141,6 +141,11 @@ def gen_writer_case(rng):
             c[1] = sl.S(_no_marker(c[1]['s']))
             if rng.random() < 0.2:
                 c[1] = sl.S(c[1]['s'] + rng.choice(['\n\n#diffx: version=1.0\n', '\n#diffx:\n']))
+            if rng.random() < 0.25:
+                # Markdown that other lexers would choke on, declared as Markdown: to this lexer it is plain preamble text
+                c[1] = sl.S(rng.choice(['# Title\n\n```python\n$ pip install x\nfoo?\n```\n', '```json\n{"a": ...}\n```\n',
+                                        '~~~c\n#include <x>\n@@@\n~~~\n', '<div>\n```\n`\n', '```diff\n--- a\n+++ b\n@@ bad\n```\n']))
+                c[5] = sl.S('text/markdown')
             c[2] = utf8()
             headers.append('#' + '.' * (level + 1) + 'preamble:')
         elif c[0] == 'write_meta':
